@@ -146,14 +146,14 @@ func genMsgNonce(r *rand.Rand, n int) []string {
 		case 2:
 			extra = []string{"int:5", []string{"t:6976", "int:5", "nil", "bnil"}[r.Intn(4)]}
 		default:
-			extra = []string{"int:5", "b:" + hx(randBytes(r, ns))}
+			extra = []string{"int:5", []string{"b:", "b:", "bs:", "bx:"}[r.Intn(4)] + hx(randBytes(r, ns))}
 		}
 		k := msgKey{alg: alg, priv: symKeyTok(alg, kb, extra...), pub: symKeyTok(alg, kb, extra...)}
 		var u []string
 		switch r.Intn(8) {
 		case 0:
 		case 1, 2: // caller IV of length around the nonce size
-			u = append(u, "int:5", "b:"+hx(randBytes(r, []int{ns, ns, ns, ns - 1, ns + 1, 1, 0}[r.Intn(7)])))
+			u = append(u, "int:5", "b:"+hx(randBytes(r, []int{ns, ns, ns, ns - 1, ns + 1, 1, 0, 8, 24, 7, 12, 13}[r.Intn(12)])))
 		case 3, 4, 5: // partial IV of length 0 .. ns+2
 			u = append(u, "int:6", "b:"+hx(randBytes(r, r.Intn(ns+3))))
 		case 6: // both
@@ -245,7 +245,7 @@ func intNode(v int64) *cnode {
 func genMsgForeign(r *rand.Rand, n int) []string {
 	var out []string
 	for i := 0; i < n; i++ {
-		kind := kindsAll[r.Intn(len(kindsAll))]
+		kind := kindsAll[i%len(kindsAll)] // every kind in turn, so that the fixed slots below reach each of them
 		algs := algsForKind(kind)
 		alg := algs[r.Intn(len(algs))]
 		k := genMsgKey(r, alg, false)
@@ -256,7 +256,16 @@ func genMsgForeign(r *rand.Rand, n int) []string {
 			extOrEmpty = []byte{}
 		}
 		payload := randBytes(r, []int{0, 1, 23, 24, 255, 256, 300}[r.Intn(7)])
+		algInUnprot := false
 		bodyProt := foreignBucket(r, alg, kind != "sign" && r.Intn(4) != 0) // a quarter carry no alg: the bucket may be h'a0' or h''
+		switch (i / len(kindsAll)) % 6 {                                    // fixed slots: the three encodings of an empty protected bucket, for every kind
+		case 1:
+			bodyProt = []byte{0xa0}
+		case 3:
+			bodyProt = []byte{}
+		case 5:
+			bodyProt = []byte{0xb8, 0x00}
+		}
 		if kind != "sign" && r.Intn(6) == 0 {
 			// the header names another algorithm than the key's, while signature / tag / ciphertext are made with the key
 			// (for MACs and AEADs the other algorithm often shares the key octets): refused whatever the primitive says
@@ -265,8 +274,12 @@ func genMsgForeign(r *rand.Rand, n int) []string {
 				other = sh[r.Intn(len(sh))]
 			}
 			bodyProt = foreignBucket(r, other, true)
+			algInUnprot = r.Intn(2) == 0
 		}
 		unprotKids := []*cnode{}
+		if algInUnprot { // … while the unprotected bucket names the key's own algorithm: the protected one decides
+			unprotKids = append(unprotKids, &cnode{mt: 0, n: 1}, intNode(int64(alg)))
+		}
 		if len(k.kid) > 0 && kind != "sign" {
 			unprotKids = append(unprotKids, &cnode{mt: 0, n: 4}, &cnode{mt: 2, b: k.kid})
 		}
@@ -323,6 +336,11 @@ func genMsgForeign(r *rand.Rand, n int) []string {
 					skeys = append(skeys, sk)
 				}
 				signProt := foreignBucket(r, alg, r.Intn(4) != 0) // a quarter without alg: h'a0' or h''
+				if j > 0 && r.Intn(3) == 0 {
+					// a later signature names another algorithm than its key's (made with the key over its own bucket, so
+					// the primitive accepts it): the algorithm check is per signature, not per kid
+					signProt = foreignBucket(r, sigAlgs[r.Intn(len(sigAlgs))], true)
+				}
 				tobe := encStructure("Signature", bodyProt, signProt, extOrEmpty, payload)
 				s, err := keyFromToks(strings.Fields(sk.priv)).Signer()
 				if err != nil {
